@@ -170,6 +170,10 @@ def decoder_shift_rules(F, ok, rep, P):
                     gts.append(bi)
         oks = [bi for bi, s in agg_sites(da, "std::result::Result", "Ok") if s["d"]["l"] == 0 and not s["d"]["p"]]
         shl = [1 for c in F.closures_of(da) for _, t in c.calls() if (t["f"].get("path") or "") == "std::ops::ShlAssign::shl_assign"]
+        extra = [loc_of(c, t) for c in [da] + F.closures_of(da) for _, t in c.calls() if (t["f"].get("path") or "") == "std::ops::Shl::shl"]
+        extra += [c.loc(st_["sp"]) for c in [da] + F.closures_of(da) for bl in c.blocks for st_ in bl["s"] if st_["rv"]["r"] == "bin" and st_["rv"]["op"] == "Shl"]
+        rep.check(P + ".wasted", "streaming decoder shifts by the wasted bits exactly once (no arm shifts on its own)", not extra, loc_of(da), "",
+                  "a subframe arm of decode::read_subframe shifts its samples itself (%s) and the common wasted-bits shift runs as well: those samples are shifted twice" % extra)
         rep.check(P + ".wasted", "streaming decoder applies the wasted-bits shift on every subframe type", len(gts) == 1 and oks and all(da.dominates(gts[0], o) for o in oks) and len(shl) == 1, loc_of(da), "",
                   "a subframe type returns before the wasted-bits shift: its samples differ from the structural parser's by a factor 2^wasted")
     sd = anchor(F, rep, P + ".wasted", "stream::Subframe::decode")
@@ -309,3 +313,6 @@ def run(ctx, rep):
 
     # ---- C17.panic --------------------------------------------------------------------------------------------------------
     auditlib.panic_audit(ctx, rep, "C17", ["G_stream_w"], floor_sites=30)
+    from rules import iolib, C03
+    iolib.count_rules(ctx, rep, "C17")
+    C03.run(ctx, SubReport(rep, "C03", "C17.dec", only=r"^C03\.wide$"))
